@@ -144,6 +144,14 @@ fn block_cipher<C: NewBlockCipher + BlockEncrypt + BlockDecrypt + Clone>(
     let c = C::new(key);
     c.encrypt_block(block);
     c.decrypt_block(block);
+    // every other way the traits offer to run the cipher
+    let mut two = [block.clone(), block.clone()];
+    c.encrypt_blocks(&mut two);
+    c.decrypt_blocks(&mut two);
+    let mut par = GenericArray::<GenericArray<u8, C::BlockSize>, C::ParBlocks>::default();
+    c.encrypt_par_blocks(&mut par);
+    c.decrypt_par_blocks(&mut par);
+    let _ = C::new_from_slice(key.as_slice());
     let _ = c.clone();
 }
 
